@@ -113,10 +113,15 @@ Boolean AddChunk(ChunkList* NChunk, LargeWord NewStart, LargeWord NewLen, Boolea
                 }
             }
             if (Found) {
+                /* the new part may merely touch the first chunk found, but overlap this one */
+                PartSum = NChunk->Chunks[f1].Length + NChunk->Chunks[f2].Length;
                 SetChunk(
                         NChunk->Chunks + f1, NChunk->Chunks[f1].Start,
                         NChunk->Chunks[f1].Length, NChunk->Chunks[f2].Start,
                         NChunk->Chunks[f2].Length);
+                if ((Warn) && (PartSum != NChunk->Chunks[f1].Length)) {
+                    Result = True;
+                }
                 NChunk->Chunks[f2] = NChunk->Chunks[--NChunk->RealLen];
             }
         } while (Found);
